@@ -32,6 +32,17 @@ def engine() -> 'Engine':
     return _E
 
 
+def simplify_fix(t: Any, rounds: int = 4) -> Any:
+    """z3.simplify to a fixpoint: terms built along different code paths then meet in one normal form far more often
+    (a condition already on the path is recognised syntactically instead of by bit-level search)"""
+    for _ in range(rounds):
+        n = z3.simplify(t)
+        if n.eq(t):
+            return n
+        t = n
+    return t
+
+
 class Engine:
     def __init__(self, W: int, *, timeout_ms: int = 120_000, max_paths: int = 500_000, enum_cap: int = 64,
                  keep_const: bool = False):
@@ -49,6 +60,9 @@ class Engine:
         self.pending: List[List[Tuple[str, Any]]] = []
         self.pc: List[Any] = []
         self.model: Optional[z3.ModelRef] = None
+        self.fast_ms = 0            # > 0: two-stage solving (see _check)
+        self.fallbacks = 0
+        self._alt_model: Any = None
         # statistics
         self.paths = 0
         self.aborted = 0
@@ -62,19 +76,64 @@ class Engine:
         self.bit_facts: Dict[Tuple[int, int], Tuple[bool, Any, Any]] = {}   # (id x, id off) -> (bit value, x, off)
         self.bit_rewrites = 0
         self.fmt_terms: List[Any] = []      # terms rendered into message text (see fmt_token)
+        self.known: Dict[int, bool] = {}    # ast id -> truth value already established on this path (syntactic)
 
     # ------------------------------------------------------------------ solver plumbing
     def _check(self, *extra: Any) -> str:
         t = time.time()
-        r = self.solver.check(*extra)
+        self._alt_model = None
+        if self.fast_ms and self.fast_ms < self.timeout_ms:
+            # two-stage: the incremental solver under a short limit, then a fresh non-incremental QF_ABV solver (bit-blasting
+            # tactics) on the whole path condition - much stronger on the few hard bit-vector/array queries
+            self.solver.set('timeout', self.fast_ms)
+            r = self.solver.check(*extra)
+            self.solver.set('timeout', self.timeout_ms)
+            if str(r) == 'unknown':
+                s2 = z3.SolverFor('QF_AUFBV')
+                s2.set('timeout', self.timeout_ms)
+                s2.add(*self.solver.assertions())
+                s2.add(*extra)
+                r = s2.check()
+                if str(r) == 'sat':
+                    self._alt_model = s2.model()
+                self.fallbacks += 1
+        else:
+            r = self.solver.check(*extra)
         self.solver_s += time.time() - t
         s = str(r)
         self.q[s] = self.q.get(s, 0) + 1
         return s
 
+    def last_model(self) -> Any:
+        """the model of the last sat answer (from whichever solver produced it)"""
+        return self._alt_model if self._alt_model is not None else self.solver.model()
+
     def _assume(self, c: Any) -> None:
         self.pc.append(c)
         self.solver.add(c)
+        # syntactic index of what is already known on this path (terms are pinned by self.pc, so ids are stable)
+        if z3.is_not(c):
+            self.known[c.arg(0).get_id()] = False
+        else:
+            self.known[c.get_id()] = True
+            if z3.is_and(c):
+                for ch in c.children():
+                    if z3.is_not(ch):
+                        self.known[ch.arg(0).get_id()] = False
+                        self.pc.append(ch)
+                    else:
+                        self.known[ch.get_id()] = True
+                        self.pc.append(ch)
+
+    def _known(self, cond: Any) -> Optional[bool]:
+        k = self.known.get(cond.get_id())
+        if k is not None:
+            return k
+        if z3.is_not(cond):
+            k = self.known.get(cond.arg(0).get_id())
+            if k is not None:
+                return not k
+        return None
 
     def _model_says(self, cond: Any) -> Optional[bool]:
         if self.model is None:
@@ -95,11 +154,11 @@ class Engine:
             raise Abort()
         if r != 'sat':
             raise Inconclusive(f'solver returned {r} while looking for a path model')
-        self.model = self.solver.model()
+        self.model = self.last_model()
 
     # ------------------------------------------------------------------ branching
     def branch(self, cond: Any) -> bool:
-        cond = z3.simplify(cond)
+        cond = simplify_fix(cond)
         if z3.is_true(cond):
             return True
         if z3.is_false(cond):
@@ -112,6 +171,11 @@ class Engine:
             if self.pos == len(self.decisions):
                 self._refresh_model()
             return d
+        kn = self._known(cond)
+        if kn is not None:          # syntactically implied by the path condition: no fork, no query
+            self.decisions.append(('b', kn))
+            self.pos += 1
+            return kn
         v = self._model_says(cond)
         if v is None:
             self._refresh_model()
@@ -151,7 +215,7 @@ class Engine:
                     break
                 if r != 'sat':
                     raise Inconclusive(f'solver returned {r} while enumerating {what}')
-                v = self.solver.model().eval(e, model_completion=True).as_signed_long()
+                v = self.last_model().eval(e, model_completion=True).as_signed_long()
                 vals.append(v)
                 if len(vals) > self.enum_cap:
                     raise Inconclusive(f'concretisation of {what} has more than {self.enum_cap} feasible values')
@@ -184,13 +248,14 @@ class Engine:
             self.discharged += 1
             return True
         if r == 'sat':
-            m = self.solver.model()
+            m = self.last_model()
             self.failed.append({'label': label, 'model': self.model_values(m),
                                 'detail': detail(m) if detail else None, 'decisions': list(self.decisions[:self.pos])})
             return False
         raise Inconclusive(f'solver returned {r} on obligation {label}')
 
-    def prove_all(self, items: List[Tuple[Any, str]], *, detail: Optional[Callable[[z3.ModelRef], Any]] = None) -> bool:
+    def prove_all(self, items: List[Tuple[Any, str]], *, detail: Optional[Callable[[z3.ModelRef], Any]] = None,
+                  prefer: Optional[List[Any]] = None) -> bool:
         """several obligations under the current path condition, discharged by one query when they all hold."""
         conds = []
         for c, _ in items:
@@ -206,7 +271,12 @@ class Engine:
             return True
         if r != 'sat':
             raise Inconclusive(f'solver returned {r} on obligations {[l for _, l in items]}')
-        m = self.solver.model()
+        m = self.last_model()
+        if prefer:
+            # a counterexample exists; prefer one with extra properties that make it easy to replay (purely cosmetic)
+            r2 = self._check(z3.Not(conj), *prefer)
+            if r2 == 'sat':
+                m = self.last_model()
         bad = [l for c, l in zip(conds, [l for _, l in items]) if not z3.is_true(m.eval(c, model_completion=True))]
         self.discharged += len(items) - max(1, len(bad))
         self.failed.append({'label': bad[0] if bad else items[0][1], 'all_failing': bad, 'model': self.model_values(m),
@@ -265,6 +335,7 @@ class Engine:
                 self.model = None
                 self.bit_facts = {}
                 self.fmt_terms = []
+                self.known = {}
                 self.solver = z3.Solver()     # a fresh solver per path: no lemma/atom build-up across paths
                 self.solver.set('timeout', self.timeout_ms)
                 self.solver.push()
